@@ -319,12 +319,14 @@ func c10HeaviestTip(w *core.WorkerCtx) {
 	w.Mark("%s", desc)
 	for _, heavy := range []uint64{^uint64(0), ^uint64(0) - 1, 1 << 63} {
 		world := ledger.NewWorld(rng, w.R, []string{"C10"}, allSnapOracles, desc)
-		if _, err := ledger.Setup(world, ledger.Profile{Nodes: 1, Users: 4, SupplyClass: 0, Delivery: "lockstep"}); err != nil {
+		if _, err := ledger.Setup(world, ledger.Profile{Nodes: 2, Users: 4, SupplyClass: 0, Delivery: "lockstep"}); err != nil {
 			w.R.Inconc("setup failed: " + err.Error())
 			world.Close()
 			return
 		}
-		n := world.Nodes[0]
+		// the second node joined by syncing: its wallet is not the genesis wallet, so the rule against its own wallet is
+		// the only one that stands between its own transaction and its ledger
+		n := world.Nodes[1]
 		u := world.Users
 		s := n.Prev
 		var tip ledger.H
@@ -341,7 +343,7 @@ func c10HeaviestTip(w *core.WorkerCtx) {
 			case "self-sealed":
 				t = world.NewTrx(n.Actor, u[1].Addr, spice.Melange{}, []byte("the node's own wallet through its own node"))
 			case "genesis-wallet-spends":
-				t = world.NewTrx(n.Actor, u[1].Addr, spice.Melange{Currency: 1}, nil)
+				t = world.NewTrx(world.Nodes[0].Actor, u[1].Addr, spice.Melange{Currency: 1}, nil)
 			default:
 				t = world.NewTrx(u[1], u[2].Addr, spice.Melange{}, nil)
 			}
